@@ -52,14 +52,15 @@ def cases(tier, seed):
     sp = tsspace.space("quick", renumber=("reverse", "rotate"))
     out = [{"tree": {"arg": a}} for a in sp.args]
     out += [{"tree": {"comb": n}} for n in range(5, 13)]
+    out += [{"tree": {"arg": a}} for a in tsspace.wide_family()]
     if tier == "thorough":
         sp2 = tsspace.space("thorough", renumber=("reverse", "rotate"))
-        out = [{"tree": {"arg": a}} for a in sp2.args] + [{"tree": {"comb": n}} for n in range(5, 13)]
+        out = [{"tree": {"arg": a}} for a in sp2.args] + [{"tree": {"comb": n}} for n in range(5, 13)] + [{"tree": {"arg": a}} for a in tsspace.wide_family()]
     return {
         "cases": out,
         "states": sp.states,
         "transitions": sp.transitions,
-        "bound": "Aq ARGs + comb trees n=5..12 x timepoints {2..40 integer, 4 explicit grids} x {lognorm,gamma} x population size {1,0.5,1e4,1234.5,3-epoch history as object and as dict}",
+        "bound": "Aq ARGs (3 node numberings) + wide family W5..W7 + comb trees n=5..12 x timepoints {2..40 integer, 4 explicit grids} x {lognorm,gamma} x population size {1,0.5,1e4,1234.5,3-epoch history as object and as dict}",
         "exhaustive": True,
     }
 
